@@ -242,7 +242,7 @@ type cdesc struct {
 	Value   string `json:"value"`
 }
 
-var variants = []string{"n0", "n1", "n2", "first-field-absent", "unknown-field", "later-elements-lack-first-field", "later-elements-lack-last-field", "unknown-fields-with-ids-the-target-adds"}
+var variants = []string{"n0", "n1", "n2", "first-field-absent", "unknown-field", "later-elements-lack-first-field", "later-elements-lack-last-field", "unknown-fields-with-ids-the-target-adds", "fields-in-descending-id-order"}
 
 func buildValue(s *tbin.Shape, variant string) *tbin.Val {
 	g := &tbin.Gen{}
@@ -266,6 +266,27 @@ func buildValue(s *tbin.Shape, variant string) *tbin.Val {
 		// they are no source elements, so they neither reach the output nor count as the target's field
 		v := g.Build(s, 1)
 		addUnknownIDs(v, []int16{40, 77, 300})
+		return v
+	case "fields-in-descending-id-order":
+		// a legal encoding whose struct fields do not come in ascending id order (writers that follow the
+		// declaration order, fields appended by an edit): every struct of the value reversed
+		v := g.Build(s, 2)
+		var rev func(x *tbin.Val)
+		rev = func(x *tbin.Val) {
+			for i, j := 0, len(x.Fs)-1; i < j; i, j = i+1, j-1 {
+				x.Fs[i], x.Fs[j] = x.Fs[j], x.Fs[i]
+			}
+			for _, f := range x.Fs {
+				rev(f.V)
+			}
+			for _, e := range x.L {
+				rev(e)
+			}
+			for _, k := range x.K {
+				rev(k)
+			}
+		}
+		rev(v)
 		return v
 	case "later-elements-lack-first-field", "later-elements-lack-last-field":
 		// heterogeneous container elements: element 0 of every list / set / map is complete, the later ones lack
